@@ -53,7 +53,7 @@ CLAIMED = {
          "DESIGN.md §2 C03", TECH_T),
  "C05": ("proof", "Lean 4 theorems over the regenerated Jacobian programs: J_l(x) = J_r(-x) for so3/se3/se23 (all x); so3 core forms; on the "
          "closed-form cell the so3 J_l equals the left-Jacobian series sum_n ad^n/(n+1)! (HasSum, proved from a generic series lemma) and "
-         "J_l J_l^-1 = 1, J_r J_r^-1 = 1 for cos(theta) != 1; quaternion world/body Jacobians: q' = J w gives R' = [w]x R resp. R [w]x along every "
+         "J_l J_l^-1 = 1, J_r J_r^-1 = 1 for cos(theta) != 1, and J_l(x) = Ad_exp(x) J_r(x) on so3 (Props/C05A: all three operators are x 1 + y w^ + z w^^2); quaternion world/body Jacobians: q' = J w gives R' = [w]x R resp. R [w]x along every "
          "differentiable curve and preserves the norm; MRP body Jacobian: R' = R [w]x along every differentiable curve (9 entries). PARTIAL: that the "
          "series is the differential of exp on se3/se23 is cited mathematics; se3/se23 Q blocks and inverses are covered by numeric search only.",
          "DESIGN.md §2 C05", TECH_T),
